@@ -91,6 +91,10 @@ def gen_opt_filters(rng, pop):
         v = rng.choice(src)
         if op == 'in':
             v = rng.sample(src, rng.randrange(1, min(4, len(src)) + 1))
+        elif rng.random() < 0.12:
+            # a LIST as the value of = / != : a string never equals a list, so `=` holds for nothing and `!=` for everything -
+            # whatever a directory-level shortcut makes of the list
+            v = rng.sample(src, rng.randrange(1, min(3, len(src)) + 1))
         out.append({'p': which, 'o': op, 'v': v})
     if rng.random() < 0.3 and out:
         out.append(dict(rng.choice(out)))  # repeated filter
